@@ -6,6 +6,7 @@
 # SPDX-License-Identifier: GPL-3.0
 
 import io
+import sys
 import codecs
 import socket
 import datetime as dt
